@@ -58,6 +58,10 @@ pub struct Case {
     pub under: Under,
     pub neg: Neg,
     pub max_depth: Option<usize>,
+    /// walk with `LinkBehavior::ReadTarget` (then re-entrant / dangling links are error items,
+    /// which are not entries: the negation may or may not discard the tree they sit in)
+    #[serde(default)]
+    pub follow: bool,
 }
 
 /// one item of a walk together with the root-relative candidate text of Ok entries
@@ -230,7 +234,7 @@ impl Property for C03 {
     }
     fn rule(&self) -> String {
         "generated trees x underlying walks (Path::walk; Glob::walk with `**`, selective globs and \
-         invariant prefixes; optional maximum depth) x negations (expression text, compiled glob, \
+         invariant prefixes; optional maximum depth; a tenth with link targets read) x negations (expression text, compiled glob, \
          any() of 1-3 as text / compiled / nested, the empty pattern; biased to `**/X`, `X/**`, \
          `**/X/**` with X a literal, `{a}`, `{a,b}`, `<a:1,2>`, `{a,b/**}`, `*`, `<*/>`); one \
          evaluation = one negated walk compared (as a sorted multiset incl. error items) with the \
@@ -256,7 +260,7 @@ impl Property for C03 {
         320
     }
     fn required_counters(&self) -> Vec<&'static str> {
-        vec!["walks", "under_path", "under_glob", "neg_any", "neg_empty", "tree_discarded", "partially_matched_directory", "with_max_depth", "partition_pairs_checked", "negation_matches_directory_link"]
+        vec!["walks", "under_path", "under_glob", "neg_any", "neg_empty", "tree_discarded", "partially_matched_directory", "with_max_depth", "partition_pairs_checked", "negation_matches_directory_link", "read_target_walks"]
     }
     fn decode(&self, t: &mut Tape) -> Case {
         // symbolic links (to files and directories) in a third of the trees: under the default
@@ -292,7 +296,8 @@ impl Property for C03 {
         };
         let neg = gen_neg(t, &tree);
         let max_depth = if t.chance(50) { Some(t.below(4)) } else { None };
-        Case { tree, base, under, neg, max_depth }
+        let follow = links && t.chance(90);
+        Case { tree, base, under, neg, max_depth, follow }
     }
     fn directed(&self) -> Vec<Case> {
         let d = |p: &str| Node { path: p.into(), kind: Kind::Dir, unreadable: false };
@@ -305,6 +310,7 @@ impl Property for C03 {
                 under: Under::Path,
                 neg: Neg::Text(vec![Tok::Tree { lead: false, trail: true }, Tok::Alt(vec![vec![Tok::lit("a")]])]),
                 max_depth: None,
+                follow: false,
             },
             Case {
                 tree,
@@ -312,6 +318,7 @@ impl Property for C03 {
                 under: Under::Path,
                 neg: Neg::Text(vec![Tok::Rep { body: vec![Tok::Zom { lazy: false }, Tok::Sep], lo: 0, hi: None, spell: 1 }]),
                 max_depth: None,
+                follow: false,
             },
         ]
     }
@@ -379,7 +386,10 @@ impl Property for C03 {
             return Ok(());
         }
         let cap = 20 * (case.tree.nodes.len() + 10);
-        let beh = behavior(case.max_depth, false);
+        let beh = behavior(case.max_depth, case.follow);
+        if case.follow {
+            st.count("read_target_walks");
+        }
         if case.max_depth.is_some() {
             st.count("with_max_depth");
         }
@@ -436,10 +446,20 @@ impl Property for C03 {
         }
         // expected = plain filtered per entry
         let mut expected: BTreeMap<Item, usize> = BTreeMap::new();
+        let mut plain_errors: BTreeMap<Item, usize> = BTreeMap::new();
         for it in &plain {
             let keep = match &it.rel {
                 Some(rel) => !npat.is_match(rel),
-                None => true,
+                None => {
+                    if case.follow {
+                        // link errors are not entries: required neither to stay nor to go
+                        *plain_errors.entry(it.clone()).or_insert(0) += 1;
+                        false
+                    }
+                    else {
+                        true
+                    }
+                },
             };
             if keep {
                 *expected.entry(it.clone()).or_insert(0) += 1;
@@ -447,6 +467,13 @@ impl Property for C03 {
         }
         let mut actual: BTreeMap<Item, usize> = BTreeMap::new();
         for it in &negated {
+            if case.follow && it.rel.is_none() {
+                match plain_errors.get_mut(it) {
+                    Some(n) if *n > 0 => *n -= 1,
+                    _ => return Err(format!("{} .not({}): error item {:?} that the underlying walk does not produce", under_text, ntext, it.seen)),
+                }
+                continue;
+            }
             *actual.entry(it.clone()).or_insert(0) += 1;
         }
         // statistics: directories matched with an unmatched child / discarded as trees
